@@ -147,12 +147,13 @@ Definition members (s : state) (f : oid -> loc) : list oid := filter (fun x => g
 (* ---------------------------------------------------------------- undo actions and closures
    UW l c            restore location l to the captured value c
    UQPop o           obj2 = objects_to_save.pop(); assert obj2 is o and o._save_pos_ == len(objects_to_save)   (Attribute.__set__, Entity.set)
-   UDelQueue o sp    _delete_'s undo:  if o._status_ == 'marked_to_delete': pop (assert it is o);
-                                        if sp is not None: assert queue[sp] is None; queue[sp] = o;  o._save_pos_ = sp *)
+   UDelQueue o vac psp   _delete_'s undo:  if o._status_ == 'marked_to_delete': pop (assert it is o);
+                                            if a slot was vacated (status was 'created' / 'modified'): assert queue[vac] is None; queue[vac] = o;
+                                            o._save_pos_ = psp   (the value _save_pos_ had right before the final step) *)
 Inductive uact :=
 | UW (l : loc) (c : cell)
 | UQPop (o : oid)
-| UDelQueue (o : oid) (sp : option nat).
+| UDelQueue (o : oid) (vac : option nat) (psp : option nat).
 
 Definition closure := list uact.
 
@@ -161,6 +162,16 @@ Fixpoint set_nth {A} (l : list A) (i : nat) (x : A) : list A :=
   | [], _ => []
   | _ :: t, O => x :: t
   | h :: t, S j => h :: set_nth t j x
+  end.
+
+Definition del_slot (s : state) (q' : list (option oid)) (o : oid) (vac psp : option nat) : state * bool :=
+  match vac with
+  | Some i =>
+      match nth_error q' i with
+      | Some None => (upd (upd s LQueue (CQueue (set_nth q' i (Some o)))) (LSavePos o) (CPos psp), true)
+      | _ => (upd s LQueue (CQueue q'), false)
+      end
+  | None => (upd (upd s LQueue (CQueue q')) (LSavePos o) (CPos psp), true)
   end.
 
 Definition undo_uact (u : uact) (s : state) : state * bool :=
@@ -174,25 +185,15 @@ Definition undo_uact (u : uact) (s : state) : state * bool :=
           (s', opt_eqb Nat.eqb o' (Some o) && opt_eqb Nat.eqb (g_savepos s o) (Some (length q')))
       | [] => (s, false)                                    (* assert objects_to_save *)
       end
-  | UDelQueue o sp =>
+  | UDelQueue o vac psp =>
       if status_eqb (g_status s o) SMarked then
         match rev (g_queue s) with
         | o' :: r =>
             let q' := rev r in
-            let s' := upd s LQueue (CQueue q') in
-            if opt_eqb Nat.eqb o' (Some o) then
-              match sp with
-              | Some i =>
-                  match nth_error q' i with
-                  | Some None => (upd (upd s LQueue (CQueue (set_nth q' i (Some o)))) (LSavePos o) (CPos sp), true)
-                  | _ => (s', false)
-                  end
-              | None => (upd s' (LSavePos o) (CPos None), true)
-              end
-            else (s', false)
+            if opt_eqb Nat.eqb o' (Some o) then del_slot s q' o vac psp else (upd s LQueue (CQueue q'), false)
         | [] => (s, false)
         end
-      else (s, true)
+      else del_slot s (g_queue s) o vac psp
   end.
 
 (* run the actions of one closure in order; an assertion failure aborts *)
@@ -209,13 +210,10 @@ Fixpoint replay (cs : list closure) (s : state) : state * bool :=
   | c :: cs' => let '(s', ok) := undo_closure c s in if ok then replay cs' s' else (s', false)
   end.
 
-(* ---------------------------------------------------------------- code sites that mutate without (correct) undo: "taints" *)
+(* ---------------------------------------------------------------- "taints": marks for runs about which nothing is claimed.
+   The code sites that mutated without a (correct) undo (TSetReverse, TRemFlag, TDelNested, TNewPk, TDelCreated and, earlier, the three
+   Entity.set sites) have been repaired in /repo; what is left is the marker for states that are not in the shape the code asserts. *)
 Inductive taint :=
-| TSetReverse    (* Set.__set__ called with undo_funcs (from _delete_, Entity.set, __init__): setdata / modified_collections changed after the try, no undo *)
-| TRemFlag       (* Set.reverse_remove: undo_func reads the loop variable in_added instead of the per-object flag *)
-| TDelNested     (* _delete_: its closure is appended before, and replayed after, closures of nested calls that touch objects_to_save *)
-| TNewPk         (* _get_from_identity_map_: primary key registered in the identity map before the constructor's try block, never removed *)
-| TDelCreated    (* _delete_ of a 'created' object: undo restores status 'created' but not the objects_to_save slot / _save_pos_ *)
 | TInconsistent. (* a dictionary / queue was not in the shape the code assumes (KeyError / stale entry): nothing is claimed *)
 
 (* ---------------------------------------------------------------- execution context and monad *)
